@@ -60,15 +60,14 @@ def failure_invariants(err, text, k, rule_names):
                 bad.append("error_context-line")
         except Exception as exc:  # noqa: BLE001
             bad.append(f"error_context-raises:{type(exc).__name__}")
-        m = re.search(r" -> .*? (\d+):(\d+)\n", s)
-        if not m:
+        # the message must show L:C of p and the source line of p - wherever and however it lays them out
+        shown = [(int(a), int(b)) for a, b in re.findall(r"(?<![\d:])(\d+):(\d+)(?![\d:])", s)]
+        if not shown:
             bad.append("message-has-no-location")
-        elif (int(m.group(1)), int(m.group(2))) != (want_line, want_col):
+        elif (want_line, want_col) not in shown:
             bad.append("message-line-col")
-        else:
-            m2 = re.search(r"^%d \| (.*)$" % want_line, s, flags=re.M)
-            if not m2 or m2.group(1).rstrip() != want_src.rstrip():
-                bad.append("message-source-line")
+        elif want_src.strip() and want_src.rstrip() not in s:
+            bad.append("message-source-line")
     return sorted(set(bad))
 
 
